@@ -442,7 +442,8 @@ def _collapse_generated_temps(fn: T.Any) -> None:
         i = 0
         while i + 1 < len(b):
             a, c = b[i], b[i + 1]
-            if isinstance(a, ast.Assign) and len(a.targets) == 1 and isinstance(a.targets[0], ast.Name) and "__" in a.targets[0].id \
+            if isinstance(a, ast.Assign) and len(a.targets) == 1 and isinstance(a.targets[0], ast.Name) \
+                    and ("__" in a.targets[0].id or (isinstance(c, ast.Assign) and len(stores.get(a.targets[0].id, [])) == 1 and a.targets[0].id not in params)) \
                     and isinstance(c, (ast.Assign, ast.Return)) and isinstance(c.value, ast.Name) and c.value.id == a.targets[0].id and loads.get(a.targets[0].id, 0) == 1:
                 c.value = a.value
                 del b[i]
@@ -578,6 +579,161 @@ def _stmt_key(st: ast.stmt) -> str:
     if isinstance(st, ast.AnnAssign) and st.value is not None:
         return _norm(ast.Assign(targets=[st.target], value=st.value, lineno=0, col_offset=0))
     return _norm(st)
+
+
+def _inline_named_tests(fn: T.Any) -> None:
+    """`t = <side-effect free test>` directly followed by `if t:` / `while t:` (t bound once, read once)  ->  `if <test>:`."""
+    own = list(_own_nodes(fn))
+    stores: dict[str, int] = {}
+    loads: dict[str, int] = {}
+    for n in own:
+        if isinstance(n, ast.Name):
+            d = stores if isinstance(n.ctx, (ast.Store, ast.Del)) else loads
+            d[n.id] = d.get(n.id, 0) + 1
+    params = {a.arg for a in fn.args.args + fn.args.kwonlyargs}
+    for b in list(_blocks(fn)):
+        i = 0
+        while i + 1 < len(b):
+            a, nx = b[i], b[i + 1]
+            host_field = "test" if isinstance(nx, ast.If) else "value" if isinstance(nx, (ast.Assign, ast.AnnAssign)) and getattr(nx, "value", None) is not None else None
+            if isinstance(a, ast.Assign) and len(a.targets) == 1 and isinstance(a.targets[0], ast.Name) and host_field is not None:
+                t = a.targets[0].id
+                boolish = isinstance(a.value, (ast.Compare, ast.BoolOp)) or (isinstance(a.value, ast.UnaryOp) and isinstance(a.value.op, ast.Not))
+                if boolish and t not in params and stores.get(t) == 1 and loads.get(t) == 1 and _query(a.value):
+                    host = getattr(nx, host_field)
+                    hits = [x for x in ast.walk(host) if isinstance(x, ast.Name) and x.id == t]
+                    # the test is evaluated before anything in the host that could disturb what it reads
+                    early = _query(host) or (isinstance(host, ast.IfExp) and any(x is hits[0] for x in ast.walk(host.test))) if hits else False
+                    if len(hits) == 1 and early:
+                        class S_(ast.NodeTransformer):
+                            def visit_Name(self, n: ast.Name) -> ast.AST:
+                                return _clone(a.value) if n is hits[0] else n
+                        setattr(nx, host_field, S_().visit(host))
+                        ast.fix_missing_locations(nx)
+                        del b[i]
+                        i = max(i - 1, 0)       # a chain of named tests collapses step by step
+                        continue
+            i += 1
+
+
+def _snapshot_aliases(fn: T.Any) -> None:
+    """`v = self.f` (v bound once) whose every use is reached before anything can change `self.f` - no store to the field, no
+    call, no suspension in between - is a mere abbreviation: the uses read `self.f` again.  Decided on straight-line code: the
+    uses must follow the binding in the same or a nested block, and the statements are scanned in order up to the last use."""
+    own = list(_own_nodes(fn))
+    stores: dict[str, int] = {}
+    for n in own:
+        if isinstance(n, ast.Name) and isinstance(n.ctx, (ast.Store, ast.Del)):
+            stores[n.id] = stores.get(n.id, 0) + 1
+    params = {a.arg for a in fn.args.args + fn.args.kwonlyargs}
+    for b in list(_blocks(fn)):
+        for i, a in enumerate(list(b)):
+            if not (isinstance(a, ast.Assign) and len(a.targets) == 1 and isinstance(a.targets[0], ast.Name) and isinstance(a.value, ast.Attribute)
+                    and isinstance(a.value.value, ast.Name) and a.value.value.id == "self"):
+                continue
+            v, fld = a.targets[0].id, a.value.attr
+            if v in params or stores.get(v) != 1 or a not in b:
+                continue
+            k = b.index(a)
+            rest = b[k + 1:]
+            uses = [x for st in rest for x in ast.walk(st) if isinstance(x, ast.Name) and x.id == v]
+            all_uses = [x for x in own if isinstance(x, ast.Name) and x.id == v and isinstance(x.ctx, ast.Load)]
+            if not uses or len(uses) != len(all_uses) or any(isinstance(x, (ast.For, ast.AsyncFor, ast.While)) for st in rest for x in ast.walk(st) if any(u in list(ast.walk(x)) for u in uses)):
+                continue
+            # scan simple statements in order; a statement may use v and then disturb the field (evaluation before the store)
+            disturbed = False
+            ok = True
+            def scan(stmts: list[ast.stmt]) -> None:
+                nonlocal disturbed, ok
+                for st in stmts:
+                    if not ok:
+                        return
+                    if isinstance(st, (ast.If,)):
+                        if disturbed and any(x in uses for x in ast.walk(st.test)):
+                            ok = False
+                            return
+                        if any(isinstance(x, (ast.Call, ast.Await)) for x in ast.walk(st.test)) and not _query(st.test):
+                            disturbed = True
+                        before = disturbed
+                        scan(st.body)
+                        after_body = disturbed
+                        disturbed = before
+                        scan(st.orelse)
+                        disturbed = disturbed or after_body
+                        continue
+                    if isinstance(st, (ast.With, ast.AsyncWith, ast.Try, ast.For, ast.AsyncFor, ast.While)):
+                        if any(x in uses for x in ast.walk(st)):
+                            ok = False
+                            return
+                        disturbed = True
+                        continue
+                    has_use = any(x in uses for x in ast.walk(st))
+                    if has_use and disturbed:
+                        ok = False
+                        return
+                    writes_field = any(isinstance(x, ast.Attribute) and x.attr == fld and isinstance(x.ctx, (ast.Store, ast.Del)) for x in ast.walk(st))
+                    calls = any(isinstance(x, (ast.Await, ast.Yield, ast.YieldFrom)) for x in ast.walk(st)) or not _query(st.value if isinstance(st, (ast.Assign, ast.AugAssign, ast.AnnAssign, ast.Expr, ast.Return)) and getattr(st, "value", None) is not None else ast.Pass())
+                    if has_use and calls and not isinstance(st, ast.Return):
+                        # the use and a call in one statement: order inside the statement is not analysed
+                        ok = False
+                        return
+                    if writes_field or calls:
+                        disturbed = True
+            scan(rest)
+            if not ok:
+                continue
+            for u in uses:
+                u_parent = next(p for p in own if any(ch is u for ch in ast.iter_child_nodes(p)))
+                new = ast.copy_location(_clone(a.value), u)
+                for fname, val in ast.iter_fields(u_parent):
+                    if val is u:
+                        setattr(u_parent, fname, new)
+                    elif isinstance(val, list):
+                        for j, x in enumerate(val):
+                            if x is u:
+                                val[j] = new
+            b.remove(a)
+            own = list(_own_nodes(fn))
+
+
+def _conditional_wrap(fn: T.Any) -> None:
+    """Two spellings of `x is W(base) if C else base` are brought to one:
+         x = W(..) if C else B                  ->   if C: x = W(..) else: x = B
+         x = B; if C: x = W(..x..)  (no else)   ->   if C: x = W(..B..) else: x = B        (B an attribute chain, W a constructor)"""
+    def ctor(e: ast.AST) -> bool:
+        if not isinstance(e, ast.Call):
+            return False
+        f = e.func
+        name = f.id if isinstance(f, ast.Name) else f.attr if isinstance(f, ast.Attribute) else ""
+        return name[:1].isupper() and not name.isupper()
+    for b in list(_blocks(fn)):
+        i = 0
+        while i < len(b):
+            st = b[i]
+            tg = st.targets[0] if isinstance(st, ast.Assign) and len(st.targets) == 1 else st.target if isinstance(st, ast.AnnAssign) and st.value is not None else None
+            if isinstance(tg, ast.Name) and isinstance(st.value, ast.IfExp) and (ctor(st.value.body) != ctor(st.value.orelse)) and _query(st.value.test):  # type: ignore[union-attr]
+                e = st.value  # type: ignore[union-attr]
+                new = ast.If(test=e.test, body=[ast.Assign(targets=[ast.Name(id=tg.id, ctx=ast.Store())], value=e.body)], orelse=[ast.Assign(targets=[ast.Name(id=tg.id, ctx=ast.Store())], value=e.orelse)])
+                ast.fix_missing_locations(ast.copy_location(new, st))
+                for x in ast.walk(new):
+                    if not hasattr(x, "lineno"):
+                        ast.copy_location(x, st)
+                b[i] = new
+            elif isinstance(tg, ast.Name) and _attr_chain(st.value) and isinstance(st.value, ast.Attribute) and i + 1 < len(b) and isinstance(b[i + 1], ast.If) and not b[i + 1].orelse \
+                    and len(b[i + 1].body) == 1 and isinstance(b[i + 1].body[0], ast.Assign) and len(b[i + 1].body[0].targets) == 1 \
+                    and isinstance(b[i + 1].body[0].targets[0], ast.Name) and b[i + 1].body[0].targets[0].id == tg.id and ctor(b[i + 1].body[0].value) \
+                    and _query(b[i + 1].test) and not any(isinstance(x, ast.Name) and x.id == tg.id for x in ast.walk(b[i + 1].test)):
+                nx = b[i + 1]
+                base_ = st.value
+                class S_(ast.NodeTransformer):
+                    def visit_Name(self, n: ast.Name) -> ast.AST:
+                        return ast.copy_location(_clone(base_), n) if n.id == tg.id and isinstance(n.ctx, ast.Load) else n
+                nx.body[0].value = S_().visit(nx.body[0].value)
+                nx.orelse = [ast.copy_location(ast.Assign(targets=[ast.Name(id=tg.id, ctx=ast.Store())], value=_clone(base_)), st)]
+                ast.fix_missing_locations(nx)
+                del b[i]
+                continue
+            i += 1
 
 
 def _distribute_tuple_local(fn: T.Any) -> None:
@@ -862,6 +1018,12 @@ def _fold_none_tests(fn: T.Any, nonnull_methods: set[str]) -> None:
         i = 0
         while i < len(b):
             st = b[i]
+            if isinstance(st, ast.If) and isinstance(st.test, ast.Constant) and isinstance(st.test.value, bool):
+                # a parameter bound to a literal at the (inlined) call site
+                b[i:i + 1] = st.body if st.test.value else st.orelse
+                if not b:
+                    b.append(ast.copy_location(ast.Pass(), st))
+                continue
             nt = _none_test(st.test) if isinstance(st, ast.If) else None
             if nt is not None:
                 x, is_none = nt
@@ -975,8 +1137,42 @@ def _sink_none_test(fn: T.Any) -> bool:
     return changed
 
 
-def canonicalise(tree: ast.Module, known_globals: set[str] | None = None) -> None:
+def _class_constants(tree: ast.Module, known_attrs: set[str] | None) -> None:
+    """A NEW class-level constant bound to a literal (`STREAM_EVENTS = (h2.events.ResponseReceived, ...)`) is copied back to the
+    `self.NAME` / `Class.NAME` reads in the class's methods - unless an instance attribute of that name is ever stored."""
+    if known_attrs is None:
+        return
+    stored = {n.attr for n in ast.walk(tree) if isinstance(n, ast.Attribute) and isinstance(n.ctx, (ast.Store, ast.Del))}
+    for c in [n for n in ast.walk(tree) if isinstance(n, ast.ClassDef)]:
+        consts: dict[str, ast.AST] = {}
+        for st in c.body:
+            tg = st.targets[0].id if isinstance(st, ast.Assign) and len(st.targets) == 1 and isinstance(st.targets[0], ast.Name) else \
+                st.target.id if isinstance(st, ast.AnnAssign) and isinstance(st.target, ast.Name) and st.value is not None else None
+            if tg is None or f"{c.name}.{tg}" in known_attrs or tg in stored or not _literal(st.value):  # type: ignore[attr-defined]
+                continue
+            if sum(1 for s2 in c.body if isinstance(s2, (ast.Assign, ast.AnnAssign)) and any(isinstance(x, ast.Name) and x.id == tg and isinstance(x.ctx, ast.Store) for x in ast.walk(s2))) != 1:
+                continue
+            consts[tg] = st.value  # type: ignore[attr-defined]
+        if not consts:
+            continue
+
+        class Sub(ast.NodeTransformer):
+            def visit_Attribute(self, n: ast.Attribute) -> ast.AST:
+                self.generic_visit(n)
+                if isinstance(n.ctx, ast.Load) and n.attr in consts and isinstance(n.value, ast.Name) and n.value.id in ("self", "cls", c.name):
+                    new = _clone(consts[n.attr])
+                    for x in ast.walk(new):
+                        ast.copy_location(x, n)
+                    return new
+                return n
+        for m in c.body:
+            if isinstance(m, FUNC_KINDS):
+                Sub().generic_visit(m)
+
+
+def canonicalise(tree: ast.Module, known_globals: set[str] | None = None, known_class_attrs: set[str] | None = None) -> None:
     _module_constants(tree, known_globals)
+    _class_constants(tree, known_class_attrs)
     _Small().visit(tree)
     for fn in [n for n in ast.walk(tree) if isinstance(n, FUNC_KINDS)]:
         fn.body = _guard_clauses(fn.body, True, False)
@@ -1037,6 +1233,9 @@ def canonicalise(tree: ast.Module, known_globals: set[str] | None = None) -> Non
             _flag_loops(b)
             _rotate_priming(b)
         _merge_identical_branches(fn)
+        _inline_named_tests(fn)
+        _snapshot_aliases(fn)
+        _conditional_wrap(fn)
         _distribute_tuple_local(fn)
         _hoist_common_tail_return(fn)
         _return_in_loop_to_break(fn)
